@@ -17,7 +17,10 @@ EXPLANATION = (
     "FrameCompressor::compress does not diverge; unsupported numbers are refused by an error return (not a panic) "
     "and every refusal dominates File::create, so no empty output is left behind; the compress/decompress plumbing "
     "hands the progress wrapper to the library and the wrapper passes the caller's buffer unchanged to the inner "
-    "reader and returns its result; the default output names are derived from the input name. "
+    "reader and returns its result; the default output names are derived from the input name; every way the CLI's own "
+    "code can panic (explicit constructs, value-partial std calls such as ilog10, compiler-inserted index / division / "
+    "overflow checks) is a reviewed site with the reason it cannot fire while an output file is open, and every index is "
+    "clamped to len() - 1 of what it indexes. "
     "Not decided: file contents and exit codes for all files (file-system behaviour), acceptance by the reference tool.")
 ASSUMPTIONS = ["clap applies the default_value of the generated Arg when the option is absent (clap, trusted)",
                "color_eyre converts an Err from main into a non-zero exit status"]
@@ -44,6 +47,12 @@ PANIC_REASONS = {
     "Read>::read|overflow:Add": "arith: total bytes read from one file fit usize",
 }
 FC = "ruzstd::encoding::frame_compressor::FrameCompressor"
+
+
+# the CLI round trip is the library round trip behind two file handles: C02's rule instances, reported as C19.library
+INCLUDES = [
+    ("c02", "C19.library", None, 100),
+]
 
 
 def run(ctx):
@@ -272,7 +281,7 @@ def run(ctx):
     tb = json.load(open(TABLE))
     ps = _panic_sites(ctx)
     INV.compare_counts(ctx, RI, "way(s) to panic in the command-line tool's own code", ps, tb["panics"], ("fn", "kind"))
-    ctx.floor(RI, len(ps), 20, "panic sites in the CLI crate")
+    ctx.floor(RI, len(ps), 15, "panic sites in the CLI crate (release builds have no overflow checks: 17)")
 
 
 def _cli_fns(cli):
